@@ -302,7 +302,8 @@ def signature(draw, names=None):
 @st.composite
 def call_shape(draw, forwarded_ok=True):
     args = [f"p{i}" for i in range(draw(st.integers(0, 4)))]
-    kwn = draw(st.lists(st.sampled_from(USER + BUILTINS + USER), max_size=4, unique=True))
+    # (user keywords may also be spelled like the callback's own *varargs / **varkw parameters: those are ordinary keywords)
+    kwn = draw(st.lists(st.sampled_from(USER + BUILTINS + USER + ["varargs", "varkw"]), max_size=4, unique=True))
     kwargs = {k: (None if draw(st.integers(0, 9)) == 0 else f"kw_{k}") for k in kwn}
     return {"args": args, "kwargs": kwargs, "forwarded": forwarded_ok and draw(st.integers(0, 4)) == 0}
 
